@@ -109,7 +109,7 @@ def parseCalls (ws : List String) : Option (List (List Action)) :=
   groups.mapM (fun g => g.mapM parseAction)
 
 def kindOf (calls : List (List Action)) (v : Nat) : String :=
-  if kindA calls v then "A" else if kindB calls v then "B" else if kindC calls v then "C" else "-"
+  if kindA calls v then "A" else if kindB calls v then "B" else if kindC calls v then "C" else if kindD calls v then "D" else "-"
 
 def doDisc (ws : List String) : Option String := do
   let calls ← parseCalls ws
